@@ -94,7 +94,9 @@ func Calls(n ast.Node, deep bool) []*ast.CallExpr {
 	var out []*ast.CallExpr
 	walk := InspectShallow
 	if deep {
-		walk = func(n ast.Node, fn func(ast.Node) bool) { ast.Inspect(n, func(x ast.Node) bool { return x != nil && fn(x) }) }
+		walk = func(n ast.Node, fn func(ast.Node) bool) {
+			ast.Inspect(n, func(x ast.Node) bool { return x != nil && fn(x) })
+		}
 	}
 	walk(n, func(x ast.Node) bool {
 		if c, ok := x.(*ast.CallExpr); ok {
